@@ -305,6 +305,10 @@ def specHandler (name : String) : Option (List Arg → Res) :=
        else okInt (Spec.dayNumber y m d)) | _ => .badOp
   | "D.last_day" => some fun | [n] => recv .D n fun n => let (y, m, _) := Spec.civil n; okInt (Spec.dayNumber y m (Spec.dim y m)) | _ => .badOp
   | "R.read" => some readOp
+  | "S.ser_str" => some fun
+    | [ty, n] => withTy ty fun ty => recv ty n fun n =>
+        (match Spec.formatSpec ty n (Serde.picture ty) with | .ok t => .ok [.bytes t] | .error _ => .err .Serde)
+    | _ => .badOp
   | _ => none
 
 /-- The operation table: name → handler. -/
